@@ -3,12 +3,12 @@
     Translated (Gen/RayGen.v, Gen/Distrib.v): RayGenerator.generate_rays / _get_ray_origins /
     _get_starting_z_offset and every *Distribution.generate_points.
     Written by hand here and tied to /repo by the correspondence check of tools/props/C03.py:
-    - FieldGroup.get_vig_factor / max_field (NumPy argsort + interp over the field list),
+    - FieldGroup.get_vig_factor (NumPy argsort + interp over the field list; max_field / max_y_field are regenerated, Gen/Fields.v),
     - the wiring of the generator to Paraxial.EPL / EPD (Model/Paraxial.v) and to the prescription,
     - create_distribution (name -> sampling) and the pupil scaling lines of Optic.trace / trace_generic. *)
 From Coq Require Import PrimFloat.
 From Coq Require Import ZArith List Bool String.
-From OV Require Import Ops OpsC03 OpsC18 Gen.RealRays Gen.Standard Gen.Paraxial Gen.RayGen Gen.Distrib Model.Paraxial.
+From OV Require Import Ops OpsC03 OpsC18 Gen.RealRays Gen.Standard Gen.Paraxial Gen.Fields Gen.RayGen Gen.Distrib Model.Paraxial.
 Import ListNotations.
 Local Open Scope string_scope.
 Local Open Scope list_scope.
@@ -20,16 +20,9 @@ Section Launch.
   (** one field: x, y, vx, vy *)
   Record field := mkField { f_x : T; f_y : T; f_vx : T; f_vy : T }.
 
-  Definition max_list (l : list T) : T :=
-    match l with
-    | [] => nan_
-    | x :: r => fold_left (fun a b => if ltb_ a b then b else a) r x
-    end.
-
-  (** FieldGroup.max_field: largest radial field *)
-  Definition max_field (fs : list field) : T :=
-    max_list (map (fun f => sqrt_ (add (mul (f_x f) (f_x f)) (mul (f_y f) (f_y f)))) fs).
-  Definition max_y_field (fs : list field) : T := max_list (map f_y fs).
+  (** FieldGroup.max_field / max_y_field: the regenerated properties on the field list *)
+  Definition max_field (fs : list field) : T := k_fld_max_field O (map f_x fs) (map f_y fs).
+  Definition max_y_field (fs : list field) : T := k_fld_max_y_field O (map f_y fs).
 
   (** np.argsort(y_fields) followed by fancy indexing = the fields sorted by y (insertion sort) *)
   Fixpoint insert_y (f : field) (l : list field) : list field :=
@@ -81,6 +74,12 @@ Section Launch.
           (o_EPL o) (o_EPD o) (o_positions o) (o_objR o) (o_objk o) (o_objz o)
           (o_aptype o) (o_n0 o) (o_apval o) (o_pol o) (o_uses_pol o)
     end.
+
+  (** RayGenerator._get_ray_origins called directly (vx, vy are the generator's 1 - v factors): defined for every
+      field list, also with x fields (where get_vig_factor refuses) *)
+  Definition origins (o : optic) (Hx Hy Px Py vx vy : T) : option (T * T * T) :=
+    k_rg_origins O Hx Hy Px Py vx vy (max_field (o_fields o)) (isinf_ (o_objz o)) (o_ftype o) (o_tele o)
+      (o_EPL o) (o_EPD o) (o_positions o) (o_objR o) (o_objk o) (o_objz o).
 
   (** Optic.trace_generic: the pupil coordinates are scaled by (1 - v) before the generator scales them again *)
   Definition launch_generic (o : optic) (Hx Hy Px Py w : T) :=
